@@ -22,6 +22,11 @@ pub fn dynamic_type_tokinizer(tokinizer: &mut Tokinizer) {
         for (type_name, type_items) in tokinizer.config.types.iter() {
             for (_, dynamic_type) in type_items.iter() {
                 for rule_tokens in dynamic_type.parse.iter() {
+                    /* A pattern without any token (an empty or comment-only pattern string) matches nothing */
+                    if rule_tokens.is_empty() {
+                        continue;
+                    }
+
                     let total_rule_token       = rule_tokens.len();
                     let mut rule_token_index   = 0;
                     let mut target_token_index = 0;
@@ -79,6 +84,12 @@ pub fn dynamic_type_tokinizer(tokinizer: &mut Tokinizer) {
                         if cfg!(feature="debug-rules") {
                             log::debug!(" --------- {} found", type_name);
                         }
+
+                        /* A pattern that binds no amount ({NUMBER:value}) can not produce a quantity */
+                        let value = match get_number("value", &fields) {
+                            Some(value) => value,
+                            None => continue
+                        };
                         
                         let text_start_position = tokinizer.token_infos[start_token_index].start;
                         let text_end_position   = tokinizer.token_infos[target_token_index - 1].end;
@@ -90,7 +101,6 @@ pub fn dynamic_type_tokinizer(tokinizer: &mut Tokinizer) {
                             tokinizer.token_infos[index].status.set(TokenInfoStatus::Removed);
                         }
                         
-                        let value = get_number("value", &fields).unwrap();
                         if let Some(data) = fields.get("type") {
                             tokinizer.ui_tokens.update_tokens(data.start, data.end, UiTokenType::Symbol2)
                         }
